@@ -57,6 +57,8 @@ META = {
                     "two known discrepancies between the paths are part of the specification (mode-dependent): null: dropped by the "
                     "remote get_parent_map, exception class of generate_revision_history on an absent revision; the third "
                     "(get_revision KeyError on rich-root knit/pack repositories) was repaired in /repo 9cb1028 and is no longer excused",
+                    "knit-family repositories (flag knit): physical repository lock, write groups not transactional, signing needs VFS -- "
+                    "observed identically on all paths and part of the specification",
                     "one client at a time (the locker is a second branch object in the same process)",
                     "old-server mode = the current server with 18 verbs removed from its registry (the insert_stream verbs stay)"],
     "rule": "one case = one op sequence x 3 modes; non-trivial = at least 3 state-changing ops succeeded; distinct = distinct (input, observation)",
@@ -64,7 +66,9 @@ META = {
 SHARD = 4
 
 MODES = ("local", "vfs", "novfs", "oldsrv")
-FORMATS = ("2a", "1.9", "1.9-rich-root")
+FORMATS = ("2a", "1.9", "1.9-rich-root", "dirstate-tags")
+# formats whose repository lock_write() takes a physical lock (knit family); pack formats only lock logically
+PHYSREPO = ("dirstate-tags",)
 # rich-root knit/pack formats: their inventory serializer number (6) is not a revision serializer number.
 # get_revision through bzr:// raised KeyError there (C32-iter-revisions-serializer, repaired in /repo 9cb1028);
 # the format stays in the rotation as a regression input.
@@ -261,6 +265,7 @@ class _Run:
         self.seen = set()
         self.committed = {}
         self.locker = None
+        self.stale = None
         self.pt = []
         init = inp.get("init")
         if init is not None:
@@ -375,7 +380,7 @@ class _Run:
         return None
 
     def op_lock(self):
-        if self.locker is not None:
+        if self.locker is not None or self.stale is not None:
             # a second client tries while the first holds the lock
             other = self.open()
             other.lock_write()
@@ -386,7 +391,48 @@ class _Run:
         self.locker = br
         return Tag("ok")
 
+    def op_stale_lock(self):
+        """Environment: somebody's BRANCH lock is left in place (stale), the repository is free.
+        Taken and released on disk, by path, in every mode."""
+        from breezy.branch import Branch
+        holder = Branch.open(self.path)
+        token = holder.lock_write().token          # LockContention when a lock is already there
+        holder.leave_lock_in_place()
+        holder.unlock()
+        self.stale = token
+        return Tag("ok")
+
+    def _release_stale(self):
+        from breezy.branch import Branch
+        token, self.stale = self.stale, None
+        holder = Branch.open(self.path)
+        holder.lock_write(token=token)
+        holder.dont_leave_lock_in_place()
+        holder.unlock()
+
+    def op_sign(self, revs):
+        """repo.sign_revision for several revisions inside ONE write group (brz sign-my-commits)."""
+        from breezy import gpg
+        repo = self.open().repository
+        strategy = gpg.LoopbackGPGStrategy(None)
+        repo.lock_write()
+        try:
+            repo.start_write_group()
+            try:
+                for r in revs:
+                    repo.sign_revision(rid(r), strategy)
+            except BaseException:
+                repo.abort_write_group()
+                raise
+            repo.commit_write_group()
+        finally:
+            repo.unlock()
+        return Tag("ok")
+
     def op_unlock(self):
+        if self.stale is not None:
+            self._release_stale()
+            return Tag("ok")
         if self.locker is None:
             return Tag("not-held")
         br, self.locker = self.locker, None
@@ -462,8 +508,10 @@ class _Run:
             for r in new:
                 if isinstance(r, int) and r >= self.n0:
                     self.committed[r] = _testament(br.repository, rid(r))
+            signed = [r for r in have if isinstance(r, int) and br.repository.has_signature_for_revision_id(rid(r))]
         locked = bool(br.get_physical_lock_status())
-        return [info[0], _idx(info[1]), tags, conf, have, locked, bad]
+        rlocked = bool(br.repository.get_physical_lock_status())
+        return [info[0], _idx(info[1]), tags, conf, have, locked, rlocked, signed, bad]
 
     def run(self):
         trace = []
@@ -479,6 +527,11 @@ class _Run:
                     self.close_all()
                 trace.append([res, self.disk()])
         finally:
+            if self.stale is not None:
+                try:
+                    self._release_stale()
+                except BaseException:
+                    pass
             if self.locker is not None:
                 try:
                     self.locker.unlock()
@@ -569,14 +622,18 @@ def _coq_op(op):
         return f"(RevTree {a[0]})"
     if n == "genhist":
         return f"(GenHist {a[0]})"
+    if n == "stale_lock":
+        return "StaleLock"
+    if n == "sign":
+        return "(Sign [" + "; ".join(str(r) for r in a[0]) + "])"
     raise ValueError(op)
 
 
 def model_term(inp):
     init = inp.get("init")
-    return "run_case %s %s %s [%s]" % (
+    return "run_case %s %s %s %s [%s]" % (
         daglib.coq_dag(inp["g"]), "None" if init is None else f"(Some {init})",
-        coq_bool(bool(inp.get("oldsrv"))),
+        coq_bool(inp["fmt"] in PHYSREPO), coq_bool(bool(inp.get("oldsrv"))),
         "; ".join(_coq_op(o) for o in inp["ops"]))
 
 
@@ -592,6 +649,13 @@ FINDINGS = ("C32-parent-map-null", "C32-genhist-absent-class")
 VFS_ONLY = {"pull": "AssertionError", "commit": "UnknownErrorFromSmartServer"}
 
 
+def _vfs_only(inp, op):
+    """The refusal class under BRZ_NO_SMART_VFS, None when the operation does not need VFS."""
+    if op[0] == "sign" and inp["fmt"] in PHYSREPO:
+        return "UnknownErrorFromSmartServer"       # knit-family repositories have no RPC write groups
+    return VFS_ONLY.get(op[0])
+
+
 def _discrepancies(inp, obs):
     """[(step, mode, kind, text)] where local and a remote mode differ (novfs: up to and
     including the first refused VFS-only operation)."""
@@ -605,11 +669,11 @@ def _discrepancies(inp, obs):
         cut = len(local)
         for i, op in enumerate(inp["ops"]):
             a, b = local[i], tr[i]
-            if mode == "novfs" and op[0] in VFS_ONLY and not (isinstance(b[0], Err) and str(b[0]) == "LockContention"):
+            if mode == "novfs" and _vfs_only(inp, op) and not (isinstance(b[0], Err) and str(b[0]) == "LockContention"):
                 # documented: needs VFS.  Must be refused with the documented class and change nothing.
                 prev = tr[i - 1][1] if i else None
-                if not (isinstance(b[0], Err) and str(b[0]) == VFS_ONLY[op[0]]):
-                    out.append((i, mode, "other", f"{op} expected refusal {VFS_ONLY[op[0]]}, got {b[0]!r}"))
+                if not (isinstance(b[0], Err) and str(b[0]) == _vfs_only(inp, op)):
+                    out.append((i, mode, "other", f"{op} expected refusal {_vfs_only(inp, op)}, got {b[0]!r}"))
                 elif prev is not None and b[1] != prev:
                     out.append((i, mode, "other", f"{op} was refused but changed the stored state {prev} -> {b[1]}"))
                 cut = i
@@ -633,8 +697,8 @@ def _discrepancies(inp, obs):
     # payload of every stored revision (all modes)
     for mi, m in enumerate(obs):
         for i, (res, disk) in enumerate(m[0]):
-            if disk[6] != 0:
-                out.append((i, MODES[mi], "other", f"step {i}: {disk[6]} stored revisions differ from the source (testament/text)"))
+            if disk[8] != 0:
+                out.append((i, MODES[mi], "other", f"step {i}: {disk[8]} stored revisions differ from the source (testament/text)"))
             if inp["ops"][i][0] == "pullfrom" and not isinstance(res, Err) and res[4] != 0:
                 out.append((i, MODES[mi], "other", f"step {i}: {res[4]} revisions pulled from the target differ from the source"))
     return out
@@ -723,9 +787,22 @@ def _gen_ops(rng, g, nops, hpss_only=False, richroot=False, init=None):
             t = rng.choice(sorted(tags_set)) if tags_set and rng.random() < 0.7 else rng.randrange(len(TAGS))
             ops.append(["del_tag", t])
             tags_set.discard(t)
-        elif x < 0.68:
+        elif x < 0.66:
             v = rng.choice([2, 5]) if rng.random() < 0.4 else rng.randrange(len(VALS))     # non-ASCII values often
             ops.append(["set_conf", rng.randrange(len(OPTS)), v, int(rng.random() < 0.5)])
+        elif x < 0.70:
+            if rng.random() < 0.5:
+                # several revisions in one write group, mostly stored ones
+                k = rng.randint(1, 4)
+                pool = some_have if some_have and rng.random() < 0.8 else list(range(total)) + [total + 3]
+                revs = []
+                for r in (rng.choice(pool) for _ in range(k)):
+                    if r not in revs:
+                        revs.append(r)
+                ops.append(["sign", revs])
+            else:
+                ops.append(["stale_lock"])
+                locked = True
         elif x < 0.73:
             ops.append(["lock"])
             locked = True
@@ -758,8 +835,15 @@ def _case(rng, g, fmt, nops, **kw):
     n = len(g)
     init = rng.randrange(n) if rng.random() < 0.4 else None
     richroot = fmt in RICHROOT_OLD
+    ops = _gen_ops(rng, g, nops, hpss_only=kw.get("hpss_only", False), richroot=richroot, init=init)
+    # classes that need two things together: a branch lock left behind (repository free) followed by
+    # writes, and several signatures inside one write group
+    if rng.random() < 0.35:
+        ops.insert(rng.randrange(len(ops)), ["stale_lock"])
+    if rng.random() < 0.35:
+        ops.insert(rng.randrange(len(ops) // 2, len(ops) + 1), ["sign", rng.sample(range(n), min(n, rng.randint(2, 3)))])
     return {"fmt": fmt, "g": g, "init": init, "big": kw.get("big"), "oldsrv": bool(kw.get("oldsrv")),
-            "ops": _gen_ops(rng, g, nops, hpss_only=kw.get("hpss_only", False), richroot=richroot, init=init)}
+            "ops": ops}
 
 
 def corpus():
@@ -774,6 +858,16 @@ def corpus():
         {"fmt": "1.9", "g": g, "init": 2, "big": None, "ops": [
             ["lock"], ["fetch", 4], ["fetch", 1], ["pull", 4, 0], ["commit"], ["del_tag", 3], ["genhist", 1], ["genhist", 4],
             ["set_conf", 1, 1, 1], ["pullfrom"], ["revno", 1], ["get_rev", 1], ["unlock"], ["fetch", 4], ["lock"], ["fetch", 6]]},
+        # a branch lock left behind with the repository free, then refused writes (every format; the knit
+        # family takes a physical repository lock), and a held lock on branch + repository
+    ] + [{"fmt": fmt, "g": g, "init": 2, "big": None, "oldsrv": fmt == "dirstate-tags", "ops": [
+        ["stale_lock"], ["set_tag", 1, 1], ["lock"], ["push", 4, 0], ["set_conf", 0, 1, 1], ["genhist", 1], ["fetch", 4],
+        ["sign", [1, 2]], ["unlock"], ["lock"], ["fetch", 6], ["sign", [0]], ["lock"], ["unlock"], ["fetch", 6], ["set_tag", 1, 1]]}
+        for fmt in ("dirstate-tags", "2a")] + [
+        # several signatures inside one write group (RPC write-group verbs on pack formats), incl. a failing one
+        {"fmt": fmt, "g": g, "init": 4, "big": None, "oldsrv": True, "ops": [
+            ["sign", [1, 2, 3]], ["sign", [4, 0]], ["sign", [2, 60, 1]], ["sign", []], ["pullfrom"], ["push", 6, 1],
+            ["sign", [6, 5, 0]]]} for fmt in ("2a", "1.9", "dirstate-tags")] + [
         # one sequence touching every operation, every format
     ] + [{"fmt": fmt, "g": g, "init": None, "big": None, "ops": [
         ["push", 4, 0], ["lri"], ["revno", 3], ["revno", 1], ["revno", 4], ["set_conf", 3, 2, 1], ["set_conf", 2, 5, 1],
@@ -798,7 +892,7 @@ def cases(rng, tier):
             dags.append(daglib.gen_dag(rng, rng.randint(3, maxn), p_left_ghost=0.0, p_ghost=0.1))
     for k in range(nseq):
         g = dags[k % len(dags)] if quick else rng.choice(dags)
-        fmt = FORMATS[k % len(FORMATS)] if rng.random() < 0.6 else "2a"
+        fmt = FORMATS[k % len(FORMATS)] if rng.random() < 0.75 else "2a"
         yield _case(rng, g, fmt, rng.randint(6, 10 if quick else 15), hpss_only=(k % 4 == 3), oldsrv=(k % 3 == 1))
     # size thresholds: file texts above the medium / stream buffer sizes (64 KiB, 1 MiB)
     sizes = [[65536 - 3, 1100000]] if quick else [[70000], [65535, 65537], [1100000], [1048576 + 1, 300000]]
@@ -824,7 +918,7 @@ def distribution(inputs, observations):
         d["formats"][inp["fmt"]] = d["formats"].get(inp["fmt"], 0) + 1
         k = str(len(inp["ops"]))
         d["sequence_length"][k] = d["sequence_length"].get(k, 0) + 1
-        d["hpss_only_sequences"] += not any(op[0] in VFS_ONLY for op in inp["ops"])
+        d["hpss_only_sequences"] += not any(_vfs_only(inp, op) for op in inp["ops"])
         d["big_file_cases"] += bool(inp.get("big"))
         d["steps_total"] += len(_modes(inp)) * len(inp["ops"])
         d["old_server_cases"] = d.get("old_server_cases", 0) + bool(inp.get("oldsrv"))
